@@ -1,3 +1,3 @@
 From Coq Require Import ExtrOcamlBasic ZArith.
-From CppUVerif Require Import C12_Model.
-Extraction "c12_model.ml" C12_Model.run C12_Model.spec C12_Model.valid C12_Model.render BinInt.Z.of_N.
+From CppUVerif Require Import C12_Model C12_Apply.
+Extraction "c12_model.ml" C12_Apply.xrun C12_Apply.xspec C12_Model.valid C12_Model.render BinInt.Z.of_N.
